@@ -50,7 +50,153 @@ func c19Encoded(p *an.Prog, a an.FieldUse) (string, bool) {
 			return "via " + a.SinkFn.Name() + ":" + k, true
 		}
 	}
+	if a.SinkCall == nil && !a.Returned && a.CopyTo == nil {
+		// operand of a string concatenation (`x.A + "/" + x.B`, the operator
+		// spelling of Sprintf("%s/%s", ..)): the concatenated text is followed to
+		// the call that consumes it
+		if outer, ok := c19ConcatSink(a); ok {
+			if k, ok := c19ByteSink(outer); ok {
+				return "via +:" + k, true
+			}
+		}
+	}
 	return "", false
+}
+
+// c19ConcatSink: the field read at a.Pos is an operand of a string
+// concatenation; returns where the concatenated value is consumed: the call it
+// is an argument of (through conversions such as []byte(..)), or, when it is
+// stored in a local variable, the first call after the store that takes the
+// variable (again through conversions) -- the same two steps the field tracer
+// takes for a value that is passed on directly.
+func c19ConcatSink(a an.FieldUse) (an.FieldUse, bool) {
+	out := an.FieldUse{SinkArg: -2, Kind: "read", Fn: a.Fn}
+	f := a.Fn
+	if f == nil || f.Body == nil {
+		return out, false
+	}
+	info := f.Info()
+	// ancestors of the selector
+	var stack, path []ast.Node
+	ast.Inspect(f.Body, func(n ast.Node) bool {
+		if n == nil {
+			stack = stack[:len(stack)-1]
+			return true
+		}
+		stack = append(stack, n)
+		if sel, ok := n.(*ast.SelectorExpr); ok && path == nil && sel.Sel.Pos() == a.Pos {
+			path = append([]ast.Node(nil), stack...)
+		}
+		return true
+	})
+	if path == nil {
+		return out, false
+	}
+	isConv := func(call *ast.CallExpr) bool {
+		tv, ok := info.Types[call.Fun]
+		return ok && tv.IsType() && len(call.Args) == 1
+	}
+	var unconv func(e ast.Expr) ast.Expr
+	unconv = func(e ast.Expr) ast.Expr {
+		e = ast.Unparen(e)
+		if call, ok := e.(*ast.CallExpr); ok && isConv(call) {
+			return unconv(call.Args[0])
+		}
+		return e
+	}
+	i := len(path) - 1
+	cur := path[i]
+	concat := false
+	var parent ast.Node
+	for i--; i >= 0; i-- {
+		parent = path[i]
+		switch x := parent.(type) {
+		case *ast.ParenExpr:
+			cur = parent
+			continue
+		case *ast.BinaryExpr:
+			isStr := false
+			if tv, ok := info.Types[x]; ok && tv.Type != nil {
+				bt, okb := tv.Type.Underlying().(*types.Basic)
+				isStr = okb && bt.Info()&types.IsString != 0
+			}
+			if x.Op != token.ADD || !isStr {
+				return out, false
+			}
+			concat = true
+			cur = parent
+			continue
+		case *ast.CallExpr:
+			if concat && isConv(x) && x.Args[0] == cur {
+				cur = parent
+				continue
+			}
+		}
+		break
+	}
+	if !concat || parent == nil {
+		return out, false
+	}
+	sinkAt := func(call *ast.CallExpr, idx int) (an.FieldUse, bool) {
+		fn := an.Callee(info, call)
+		if fn == nil {
+			return out, false
+		}
+		out.SinkFn, out.SinkCall, out.SinkArg, out.Sink = fn, call, idx, an.FuncName(fn)
+		return out, true
+	}
+	var obj types.Object
+	var from token.Pos
+	switch x := parent.(type) {
+	case *ast.CallExpr:
+		for idx, arg := range x.Args {
+			if arg == cur {
+				return sinkAt(x, idx)
+			}
+		}
+		return out, false
+	case *ast.AssignStmt:
+		if len(x.Lhs) != len(x.Rhs) || (x.Tok != token.ASSIGN && x.Tok != token.DEFINE) {
+			return out, false
+		}
+		for k, r := range x.Rhs {
+			if r == cur {
+				obj, from = an.ObjOf(info, x.Lhs[k]), x.End()
+			}
+		}
+	case *ast.ValueSpec:
+		for k, v := range x.Values {
+			if v == cur && k < len(x.Names) {
+				obj, from = info.Defs[x.Names[k]], x.End()
+			}
+		}
+	}
+	if v, isVar := obj.(*types.Var); !isVar || v.IsField() || (v.Pkg() != nil && v.Parent() == v.Pkg().Scope()) {
+		return out, false
+	}
+	var res an.FieldUse
+	found := false
+	ast.Inspect(f.Body, func(n ast.Node) bool {
+		if found || n == nil {
+			return false
+		}
+		call, ok := n.(*ast.CallExpr)
+		if !ok || call.Pos() < from || isConv(call) {
+			return true
+		}
+		for idx, arg := range call.Args {
+			if an.ObjOf(info, unconv(arg)) == obj {
+				res, _ = sinkAt(call, idx)
+				found = true
+				return false
+			}
+		}
+		return true
+	})
+	if !found || res.SinkCall == nil {
+		return out, false
+	}
+	return res, true
 }
 
 // c19WriterSeq: ordered, grouped sequence of fields a writer emits.
